@@ -236,7 +236,7 @@ class DefiniteAssignment:
 
         def visit(n, extra):
             if isinstance(n, ast.Name) and isinstance(n.ctx, ast.Load):
-                if n.id in self.locals and n.id not in bound and n.id not in extra:
+                if n.id in self.locals and n.id not in bound and n.id not in extra and not self.bound_under_facts(n.id, bound):
                     self.problems.append((n.id, n, " -> ".join(path) or "entry"))
                 return
             if isinstance(n, (ast.ListComp, ast.SetComp, ast.DictComp, ast.GeneratorExp)):
@@ -265,9 +265,59 @@ class DefiniteAssignment:
 
         visit(node, set())
 
+    # ---- correlated conditions.  Besides names, the set carries ("fact", test text, names in it) for every `if` test known to hold on
+    # the current path, and ("cond", name, test text, names) = "name is bound whenever that test held".  Both are intersected at merges like
+    # names (so they survive only where they hold on every path) and dropped as soon as a name they mention is bound again.  A store into
+    # a column of a table, `t[<str>] = ...` / `t.loc[:, <str>] = ...`, binds the pseudo-name "col:<t>:<str>", which is what the test
+    # `<str> in t.columns` asks for.
+    @staticmethod
+    def _names_in(node):
+        return frozenset(x.id for x in ast.walk(node) if isinstance(x, ast.Name))
+
+    @staticmethod
+    def invalidate(bound, names):
+        names = set(names)
+        for item in [i for i in bound if isinstance(i, tuple) and (i[-1] & names)]:
+            bound.discard(item)
+        for item in [i for i in bound if isinstance(i, str) and i.startswith("col:") and i.split(":")[1] in names]:
+            bound.discard(item)
+
+    def holds(self, text, bound, depth=0):
+        if any(isinstance(i, tuple) and i[0] == "fact" and i[1] == text for i in bound):
+            return True
+        if depth > 3:
+            return False
+        try:
+            t = ast.parse(text, mode="eval").body
+        except SyntaxError:
+            return False
+        if isinstance(t, ast.Compare) and len(t.ops) == 1 and isinstance(t.ops[0], ast.In) and isinstance(t.left, ast.Constant) and isinstance(t.left.value, str) \
+                and isinstance(t.comparators[0], ast.Attribute) and t.comparators[0].attr == "columns" and isinstance(t.comparators[0].value, ast.Name):
+            return self.bound_under_facts(f"col:{t.comparators[0].value.id}:{t.left.value}", bound, depth + 1)
+        return False
+
+    def bound_under_facts(self, name, bound, depth=0):
+        if name in bound:
+            return True
+        return any(isinstance(i, tuple) and i[0] == "cond" and i[1] == name and self.holds(i[2], bound, depth) for i in bound)
+
+    @staticmethod
+    def _column_store(t):
+        """t[<str>] = ... or t.loc[:, <str>] = ...  ->  pseudo-name"""
+        if isinstance(t, ast.Subscript) and isinstance(t.value, ast.Name) and isinstance(t.slice, ast.Constant) and isinstance(t.slice.value, str):
+            return f"col:{t.value.id}:{t.slice.value}"
+        if isinstance(t, ast.Subscript) and isinstance(t.value, ast.Attribute) and t.value.attr == "loc" and isinstance(t.value.value, ast.Name) \
+                and isinstance(t.slice, ast.Tuple) and len(t.slice.elts) == 2 and isinstance(t.slice.elts[1], ast.Constant) and isinstance(t.slice.elts[1].value, str) \
+                and isinstance(t.slice.elts[0], ast.Slice) and t.slice.elts[0].lower is None and t.slice.elts[0].upper is None:
+            return f"col:{t.value.value.id}:{t.slice.elts[1].value}"
+        return None
+
     def bind(self, t, bound):
         if isinstance(t, ast.Name):
+            self.invalidate(bound, {t.id})
             bound.add(t.id)
+        elif self._column_store(t):
+            bound.add(self._column_store(t))
         elif isinstance(t, (ast.Tuple, ast.List)):
             for e in t.elts:
                 self.bind(e, bound)
@@ -287,7 +337,14 @@ class DefiniteAssignment:
         self.reads(st.test, bound, path)
         chain = chain + [st.test]
         t = src(st.test)[:60]
-        f1, b1 = self.block(st.body, bound, path + [f"({t}) true"])
+        full, tn = src(st.test), self._names_in(st.test)
+        simple = not any(isinstance(x, (ast.Call, ast.NamedExpr, ast.Await, ast.Yield)) for x in ast.walk(st.test))
+        f1, b1 = self.block(st.body, (set(bound) | {("fact", full, tn)}) if simple else bound, path + [f"({t}) true"])
+        if simple and not (tn & self._assigned_in(st.body)):
+            # whatever the taken branch binds is bound whenever the test held (as long as nothing the test mentions is re-bound)
+            for nm in [i for i in b1 if isinstance(i, str) and i not in bound]:
+                b1.add(("cond", nm, full, tn))
+        cond_items = {i for i in b1 if isinstance(i, tuple) and i[0] == "cond" and i[2] == full} if simple else set()
         if len(st.orelse) == 1 and isinstance(st.orelse[0], ast.If):
             f2, b2 = self._if(st.orelse[0], bound, path + [f"({t}) false"], chain)
         elif not st.orelse and self.exhaustive is not None and self.exhaustive(chain):
@@ -295,14 +352,34 @@ class DefiniteAssignment:
         else:
             f2, b2 = self.block(st.orelse, bound, path + [f"({t}) false"])
         if f1 and f2:
-            return True, b1 & b2
+            return True, (b1 & b2) | {i for i in cond_items if not (i[-1] & self._assigned_in(st.orelse))}
         if f1:
             return True, b1
         if f2:
             return True, b2
         return False, bound
 
+    @staticmethod
+    def _assigned_in(stmts):
+        out = set()
+        for st in stmts:
+            for x in ast.walk(st):
+                if isinstance(x, ast.Name) and isinstance(x.ctx, (ast.Store, ast.Del)):
+                    out.add(x.id)
+                elif isinstance(x, (ast.FunctionDef, ast.ClassDef)):
+                    out.add(x.name)
+                elif isinstance(x, (ast.Import, ast.ImportFrom)):
+                    out.update((a.asname or a.name).split(".")[0] for a in x.names)
+        return out
+
     def stmt(self, st, bound, path):
+        falls, out = self._stmt(st, bound, path)
+        if isinstance(st, (ast.For, ast.AsyncFor, ast.While, ast.Try, ast.With, ast.AsyncWith)):
+            # facts established before a compound statement do not survive a re-binding anywhere inside it
+            self.invalidate(out, self._assigned_in([st]))
+        return falls, out
+
+    def _stmt(self, st, bound, path):
         bound = set(bound)
         if isinstance(st, (ast.FunctionDef, ast.AsyncFunctionDef, ast.ClassDef)):
             bound.add(st.name)
